@@ -1,4 +1,5 @@
 import Evl.Model.CloudEvents
+import Evl.Model.CloudEventsVerify
 import Driver.Json
 /- Line protocol for M8b CloudEvents. -/
 namespace Driver.CloudEvents
@@ -39,6 +40,11 @@ def stepLine (u : Unit) (line : String) : Unit × String :=
         (u, showOut (process cfg ev (harnessSigner (sg == 2)) pr))
       | none => (u, "bad-op")
     | _, _, _, _, _, _, _, _, _, _, _ => (u, "bad-op")
+  | ["verify", doc] =>
+    match unhex doc with
+    | some b => (u, match verify (harnessSigner false) b with
+        | .verified => "verified" | .notSigned => "notSigned" | .malformed => "malformed" | .mismatch => "mismatch")
+    | none => (u, "bad-op")
   | _ => (u, "bad-op")
 
 end Driver.CloudEvents
